@@ -82,6 +82,20 @@ class DocRunner:
             buf = io.BytesIO()
             # model of a template = what a save of the untouched new document contains
             model = None
+        elif kind == "new":
+            # Document.new(<any package used as a custom template>): same parts, regular (non-template) mimetype
+            path = corpus.samples_dir() / source["name"]
+            data = path.read_bytes()
+            if source.get("how") == "bytesio":
+                doc = Document.new(io.BytesIO(data))
+            else:
+                p = self.scratch / f"tpl{self.n}-{source['name']}"
+                p.write_bytes(data)
+                doc = Document.new(str(p))
+            infos, parts = odfread.read_zip(data)
+            model = {norm(k): v for k, v in parts.items()}
+            model["mimetype"] = model["mimetype"].replace(b"-template", b"")
+            self.edited.add("META-INF/manifest.xml")
         else:
             path = corpus.samples_dir() / source["name"]
             data = path.read_bytes()
@@ -277,6 +291,7 @@ class DocRunner:
         self.labels.add("set_part-xml-" + ("unread" if self.unread else "after-read"))
 
     set_xml = None
+    reuse_buf = None
 
     def op_merge_styles(self, op):
         from odfdo import Document
@@ -307,7 +322,22 @@ class DocRunner:
         self.saves += 1
         self.n += 1
         nontrivial = self.lazy and self.unread and bool(self.edited)
-        if packaging == "zip" and op.get("target") == "bytesio":
+        if packaging == "zip" and op.get("target") == "bytesio-reuse":
+            # the same BytesIO object receives every save of this history (and is the source when reopened)
+            if self.reuse_buf is None:
+                self.reuse_buf = io.BytesIO()
+            self.doc.save(self.reuse_buf)
+            data = self.reuse_buf.getvalue()
+            rb = self.reuse_buf
+            reopen = lambda: Document(rb)  # noqa: E731
+            self.labels.add("bytesio-reused" if self.saves > 1 else "bytesio-first")
+            try:
+                saved = self._read_zip(data)
+            except Exception as e:
+                self.ctx.fail((self.prop, "save-zip", "reused-buffer-not-a-valid-zip"),
+                              f"saving again into the same BytesIO leaves an unreadable archive: {e!r}", self.case)
+                return
+        elif packaging == "zip" and op.get("target") == "bytesio":
             buf = io.BytesIO()
             self.doc.save(buf)
             data = buf.getvalue()
@@ -515,6 +545,8 @@ def sources(ctx, big=False):
             continue
         for how in ("path", "bytesio", "folder"):
             out.append({"kind": "sample", "name": p.name, "how": how})
+        if p.suffix in (".odt", ".ods", ".odp", ".odg", ".ott", ".ots", ".otp", ".otg") and p.stat().st_size < 40_000:
+            out.append({"kind": "new", "name": p.name, "how": "path" if len(out) % 2 else "bytesio"})
     return out
 
 
@@ -585,7 +617,7 @@ def make_doc_machine(ctx, prop, extra_ops=()):
                 self.go({"op": "clone"})
 
         @rule(packaging=st.sampled_from(["zip", "zip", "folder", "xml"] if prop == "C03" else ["zip"]),
-              tgt=st.sampled_from(["path", "bytesio"]), reopen=st.booleans(), pretty=st.booleans())
+              tgt=st.sampled_from(["path", "bytesio", "bytesio-reuse", "bytesio-reuse"]), reopen=st.booleans(), pretty=st.booleans())
         def save(self, packaging, tgt, reopen, pretty):
             self.go({"op": "save", "packaging": packaging, "target": tgt, "reopen": reopen, "pretty": pretty})
 
